@@ -42,7 +42,7 @@ ASSUMPTIONS = [
     "injected by adding to the counter the terminals produced",
     "ebpfcat.ebpfcat.monotonic is the virtual loop's clock",
 ]
-EXAMPLES = {"quick": 40, "thorough": 1000}
+EXAMPLES = {"quick": 40, "thorough": 5000}
 MIN_NONTRIVIAL = {"quick": 150, "thorough": 3000}
 CASE_TIMEOUT = 300
 
